@@ -139,7 +139,7 @@ def case_oracle(case, *, cexec: bool = False):
         env = dict(input_values(spec))
         try:
             v0 = evaluate(g, env)
-        except (RefOutOfBounds, RefUnsupported) as e:
+        except Exception as e:  # noqa: BLE001 (a broken graph is a finding)
             return Failure("original-uninterpretable", str(e), "refeval"), info
         # the original graph must mean what NumPy says (ties the reference
         # evaluator to NumPy, and the API-built index lambdas to both)
@@ -190,7 +190,7 @@ def case_oracle(case, *, cexec: bool = False):
                     env[k] = v
             try:
                 v1 = evaluate(g1, env)
-            except (RefOutOfBounds, RefUnsupported) as e:
+            except Exception as e:  # noqa: BLE001 (a broken graph is a finding)
                 return Failure("result-uninterpretable",
                                f"step {step} {name}: {e}", name), info
             msg = same_values(v0, v1)
